@@ -184,6 +184,15 @@ Proof.
   destruct (reach_set_sound _ _ _ HS _ Hm) as [s [Hs Hr]]. eauto.
 Qed.
 
+Theorem reach_ok_witness g srcs bads :
+  reach_ok g srcs bads = true ->
+  exists s b, In s srcs /\ In b bads /\ reachable g s b.
+Proof.
+  unfold reach_ok. destruct (reach_set g srcs) as [S|] eqn:HS; [|discriminate].
+  intros Hex. apply existsb_exists in Hex. destruct Hex as [b [Hb Hm]].
+  destruct (reach_set_sound _ _ _ HS _ Hm) as [s [Hs Hr]]. eauto.
+Qed.
+
 (* the statement used by C24/C38: every reference to a bad node made by a
    function reachable from a source is one of the allowed edges *)
 Definition no_bad_reference (g : graph) (srcs bad : list node) (allowed : list (node * node)) : Prop :=
